@@ -13,6 +13,7 @@ import (
 
 	"verif.local/lib/evid"
 	"verif.local/lib/refs"
+	"verif.local/lib/rfc"
 	"verif.local/lib/xdrw"
 )
 
@@ -189,7 +190,7 @@ func vfRunRL(cfg RateLimiterConfig, evs []vfRLEvent, globalAdmit bool) (dec []bo
 	for i, e := range evs {
 		now = now.Add(e.Adv)
 		vfClockSet(now)
-		ip := fmt.Sprintf("10.0.0.%d", e.IP)
+		ip := vfRLIP(e.IP)
 		var ok bool
 		var keys []string
 		if e.Op == 0 {
@@ -468,7 +469,7 @@ func TestVerif_C19(t *testing.T) {
 				who = "abuser"
 			}
 			rec.Violate("C19/client-within-limits-refused-while-admitted-traffic-within-global-limit/"+who,
-				fmt.Sprintf("scenario %d step %d: %s client 10.0.0.%d refused although the requests actually admitted leave global capacity and its own limits have room (abuser factor %d, global %d/s, per-IP %d/s burst %d); %d of %d compliant requests refused in this scenario", s, at, who, evs[at].IP, factor, global, perIP, burst, compRefused, compTotal),
+				fmt.Sprintf("scenario %d step %d: %s client %s refused although the requests actually admitted leave global capacity and its own limits have room (abuser factor %d, global %d/s, per-IP %d/s burst %d); %d of %d compliant requests refused in this scenario", s, at, who, vfRLIP(evs[at].IP), factor, global, perIP, burst, compRefused, compTotal),
 				map[string]any{"config": cfg, "events": evs[:at+1]})
 		} else if viol != "" {
 			rec.Violate("C19/"+viol, fmt.Sprintf("scenario %d step %d", s, at), map[string]any{"config": cfg, "events": evs[:at+1]})
@@ -498,9 +499,10 @@ func TestVerif_C19(t *testing.T) {
 		}
 		vfClockSet(time.Unix(1_800_000_000, 0))
 		rl := NewRateLimiter(cfg)
+		abuser := []string{"10.0.0.1", "2001:db8::bad", "::ffff:10.0.0.1"}[s%3]
 		spent := 0
 		for i := 0; i < own+3; i++ {
-			if rl.AllowRequest("10.0.0.1", "conn-abuser") {
+			if rl.AllowRequest(abuser, "conn-abuser") {
 				spent++
 			}
 		}
@@ -517,7 +519,7 @@ func TestVerif_C19(t *testing.T) {
 			go func() {
 				defer wg.Done()
 				for !stop.Load() {
-					if rl.AllowRequest("10.0.0.1", "conn-abuser") {
+					if rl.AllowRequest(abuser, "conn-abuser") {
 						admittedAbuser.Add(1)
 					} else {
 						refusedAbuser.Add(1)
@@ -534,7 +536,7 @@ func TestVerif_C19(t *testing.T) {
 			for y := rng.Intn(4); y > 0; y-- {
 				runtime.Gosched()
 			}
-			if !rl.AllowRequest(fmt.Sprintf("10.0.1.%d", c+1), fmt.Sprintf("conn-c%d", c)) {
+			if !rl.AllowRequest([]string{fmt.Sprintf("10.0.1.%d", c+1), fmt.Sprintf("2001:db8:1::%x", c+1), fmt.Sprintf("::ffff:10.0.2.%d", c+1)}[(s+c)%3], fmt.Sprintf("conn-c%d", c)) {
 				refusedCompliant++
 			}
 		}
@@ -553,4 +555,164 @@ func TestVerif_C19(t *testing.T) {
 		}
 		rec.Distinct(fmt.Sprintf("concurrent|refused-by=%s|abusers=%d|k=%d|compliant-refused=%v", []string{"per-ip", "per-connection"}[shape], nab/4*4, k, refusedCompliant > 0))
 	}
+	for ep := 0; ep < evid.Pick(6, 60) && rec.Violations() < 10; ep++ {
+		vfC19Connections(rec, ep)
+	}
+}
+
+// vfC19Connections: per-connection budgets at the server level (real TCP, frozen clock, so a
+// connection has exactly its burst). Connections come and go; one of the later ones floods past its
+// own per-connection limit. Every other open connection must still get what is left of ITS burst:
+// a refused request of one connection consumes nothing of another's.
+func vfC19Connections(rec *evid.Rec, ep int) {
+	rng := evid.Rng(191919, int64(ep))
+	vfClockSet(time.Unix(1_800_000_000, 0))
+	burst := 3 + rng.Intn(3)
+	rl := DefaultRateLimiterConfig()
+	rl.GlobalRequestsPerSecond, rl.PerIPRequestsPerSecond, rl.PerIPBurstSize = 1000000, 1000000, 1000000
+	rl.PerConnectionRequestsPerSecond, rl.PerConnectionBurstSize = 1, burst
+	fs := refs.New()
+	srv, err := vfNewSrv(fs, ExportOptions{AttrCacheTimeout: 1, EnableRateLimiting: true, RateLimitConfig: &rl})
+	if err != nil {
+		rec.Infra(err.Error())
+		return
+	}
+	defer srv.Close()
+	if err := srv.srv.Listen(); err != nil {
+		rec.Inconclusive(1)
+		return
+	}
+	defer srv.srv.Stop()
+	port := srv.srv.GetPort()
+	null := func(c *vfRM) (admitted, ok bool) {
+		raw, closed, err := c.call(vfProgNFS, 0, nil)
+		if err != nil || closed {
+			return false, false
+		}
+		rep, derr := rfc.DecodeReply(raw)
+		return derr == nil && !rep.Denied, derr == nil
+	}
+	type cn struct {
+		c    *vfRM
+		used int
+		name string
+	}
+	var open []*cn
+	dial := func(name string) *cn {
+		c, err := vfDialRM(port)
+		if err != nil {
+			return nil
+		}
+		x := &cn{c: c, name: name}
+		open = append(open, x)
+		return x
+	}
+	connCount := func() int {
+		srv.srv.connMutex.Lock()
+		defer srv.srv.connMutex.Unlock()
+		return len(srv.srv.activeConns)
+	}
+	var ops []string
+	openOne := func(name string) bool {
+		x := dial(name)
+		if x == nil {
+			return false
+		}
+		ops = append(ops, "open "+x.name)
+		// one request, so that the server has met the connection
+		if a, ok := null(x.c); ok {
+			x.used++
+			if !a {
+				rec.Violate("C19/connection/fresh-connection-refused", fmt.Sprintf("first request of %s refused (burst %d) after %v", x.name, burst, ops), nil)
+			}
+		}
+		return true
+	}
+	closeOne := func(i int) bool {
+		ops = append(ops, "close "+open[i].name)
+		open[i].c.c.Close()
+		open = append(open[:i], open[i+1:]...)
+		want := len(open)
+		for d := time.Now().Add(10 * time.Second); connCount() != want && time.Now().Before(d); {
+			time.Sleep(time.Millisecond)
+		}
+		return connCount() == want
+	}
+	request := func(x *cn) bool {
+		ops = append(ops, "request "+x.name)
+		a, ok := null(x.c)
+		if !ok {
+			return false
+		}
+		rec.Eval(1)
+		if a {
+			x.used++
+		} else if x.used < burst {
+			rec.Violate("C19/connection/within-its-own-limit-refused-after-another-connections-flood", fmt.Sprintf("%s had used %d of its burst of %d (frozen clock, global and per-IP limits far away) and was refused: %v", x.name, x.used, burst, ops), map[string]any{"ops": ops})
+			x.used = burst // resynchronise: nothing more is expected of it
+		}
+		if x.used > burst {
+			rec.Violate("C19/connection/admitted-beyond-its-burst-on-a-frozen-clock", fmt.Sprintf("%s admitted %d times, burst %d: %v", x.name, x.used, burst, ops), nil)
+		}
+		return true
+	}
+	// start with 2-3 connections, then rounds of: one leaves, a new one arrives and floods past its
+	// limit, every connection that was there before asks for one more request
+	for i := 0; i < 2+rng.Intn(2); i++ {
+		if !openOne(fmt.Sprintf("s%d", i)) {
+			rec.Inconclusive(1)
+			return
+		}
+	}
+	for round := 0; round < 5; round++ {
+		if len(open) > 1 && rng.Intn(4) != 0 {
+			if !closeOne(rng.Intn(len(open))) {
+				rec.Inconclusive(1)
+				return
+			}
+		}
+		old := append([]*cn(nil), open...)
+		if !openOne(fmt.Sprintf("r%d", round)) {
+			rec.Inconclusive(1)
+			return
+		}
+		x := open[len(open)-1]
+		ops = append(ops, "flood "+x.name)
+		for i := 0; i < burst+8; i++ {
+			a, ok := null(x.c)
+			if !ok {
+				rec.Inconclusive(1)
+				return
+			}
+			if a {
+				x.used++
+			}
+		}
+		rec.Eval(burst + 8)
+		if x.used > burst {
+			rec.Violate("C19/connection/admitted-beyond-its-burst-on-a-frozen-clock", fmt.Sprintf("%s admitted %d times, burst %d: %v", x.name, x.used, burst, ops), nil)
+		}
+		for _, o := range old {
+			if !request(o) {
+				rec.Inconclusive(1)
+				return
+			}
+		}
+	}
+	for _, x := range open {
+		x.c.c.Close()
+	}
+	rec.Distinct(fmt.Sprintf("connections|burst=%d|steps=%d", burst, len(ops)/4*4))
+}
+
+// vfRLIP names client k: IPv4, genuine IPv6 and IPv4-mapped IPv6 addresses take turns, so that
+// every population has clients of each family (distinct clients never share an address).
+func vfRLIP(k int) string {
+	switch k % 3 {
+	case 1:
+		return fmt.Sprintf("2001:db8::%x", k)
+	case 2:
+		return fmt.Sprintf("::ffff:10.0.1.%d", k)
+	}
+	return fmt.Sprintf("10.0.0.%d", k)
 }
